@@ -16,6 +16,7 @@ EXPLANATION = (
 RULE = "one obligation per Semaphore::new, per forbidden-call scan, per wrapped-call site, per consumption site of the permit"
 TRUSTED = ["tokio::sync::Semaphore (permits are handed out at most `capacity` at a time)", "rustc MIR construction"]
 ASSUMPTIONS = ["max_concurrent_calls >= 1"]
+CONFIG_CRATES = ["tower_resilience_bulkhead"]
 TECHNIQUE = "static analysis of built MIR: value-flow of the capacity, who-calls (zero-expected with positive control), dominance of permit binding over the wrapped call, consumption-after-await rule"
 
 FORBIDDEN = ("add_permits", "forget", "close", "forget_permits")
